@@ -5,6 +5,7 @@
 //! Request lines
 //!   case <n> <kind>
 //!   A <p> <start> <n> | B <p> <start> <n>   new(p, 21); add_hash(splitmix64(i)) for start <= i < start+n -> nz=<non-zero registers>
+//!   A <p> <start> <n> <k> | B …             the same with new(p, k)
 //!   hist A|B        estimators::counts with the width `cardinality` picks          -> comma list
 //!   card A|B        cardinality() and the f64 the estimator returned               -> card=<n> bits=<16 hex | nan>
 //!   cardint A|B     cardinality()                                                  -> <n>
@@ -28,6 +29,10 @@
 //!   addseq A|B api|ffi <dna>        add_sequence(dna, false) / hll_add_sequence; the true set grows by the
 //!                                   distinct canonical 21-mer hashes (counted with a scaled=1 KmerMinHash) -> nz=..
 //!   mrgffi A|B                      hll_merge (C API)                                                -> nz=..
+//!   mrgx A|B, mrgxffi A|B           merge / hll_merge that may be REFUSED (the other sketch has another precision or
+//!                                   another k): `ok nz=..` / `err MismatchNum` / `err MismatchKSizes`; after a refusal
+//!                                   the receiver holds what it held (every estimate asked afterwards is judged
+//!                                   against the unchanged true set: still 0 for an empty receiver)
 //!   addh A|B <route> <h1,h2,..>     explicit hashes - SMALL and STRUCTURED ones (0, 1, 2^k-1, 2^k, 2^k+1, values below
 //!                                   2^(p-1) / 2^p, all-ones), which no random stream ever produces - through
 //!                                   add_hash (api), add_many (many), hll_add_hash (ffi), a scaled=1 KmerMinHash +
@@ -51,7 +56,7 @@ use sourmash::ffi::hyperloglog::{
 };
 use std::os::raw::c_char;
 use sourmash::ffi::minhash::SourmashKmerMinHash;
-use sourmash::ffi::utils::ForeignObject;
+use sourmash::ffi::utils::{ForeignObject, LAST_ERROR};
 use sourmash::prelude::*;
 use sourmash::sketch::minhash::KmerMinHash;
 use sourmash::signature::SigsTrait;
@@ -253,6 +258,95 @@ fn structured_cases(o: &mut Cases, r: &mut Rng, thorough: bool) {
     }
 }
 
+/// precision and k of a sketch that a (p, k) sketch must refuse to merge with
+fn other_shape(r: &mut Rng, p: u32, k: u32) -> (u32, u32) {
+    let other_k = |r: &mut Rng| loop {
+        let x = *r.pick(&[21u32, 31, 51, 7]);
+        if x != k {
+            break x;
+        }
+    };
+    let other_p = |r: &mut Rng| loop {
+        let x = match r.below(5) {
+            0 => p + 1,
+            1 => p.saturating_sub(1),
+            2 => p + 2,
+            3 => p.saturating_sub(2),
+            _ => r.range(4, 18) as u32,
+        };
+        if x != p && (4..=18).contains(&x) {
+            break x;
+        }
+    };
+    match r.below(6) {
+        0 => (p, other_k(r)),
+        1 => (other_p(r), other_k(r)),
+        _ => (other_p(r), k),
+    }
+}
+
+/// MERGE-MISMATCH histories: a receiver - still empty (the usual union accumulator) or not - is handed
+/// sketches of another precision and / or another k, natively and through the C API; every such merge is
+/// refused and every estimate asked on the receiver afterwards is the one of what it held before; it is
+/// then used on (more hashes, a compatible merge) and asked again
+fn mismatch_cases(o: &mut Cases, r: &mut Rng, thorough: bool) {
+    let reps = if thorough { 12 } else { 4 };
+    for p in 4..=18u32 {
+        let m = 1u64 << p;
+        let cap = if thorough { 4 * m } else { 12_000 };
+        for rep in 0..reps {
+            let s = r.bits(40);
+            let ka = *r.pick(&[21u32, 21, 31]);
+            let n0 = if rep % 2 == 0 { 0 } else { r.range((m / 4).max(1), 2 * m).min(cap) };
+            let mut v = vec![format!("A {} {} {} {}", p, s, n0, ka)];
+            v.push((if r.chance(1, 2) { "cardint A" } else { "cardffi A" }).into());
+            let mut at = s + n0;
+            for round in 0..r.range(2, 3) {
+                let (p2, k2) = other_shape(r, p, ka);
+                let m2 = 1u64 << p2;
+                // the other sketch: what it holds overlaps A's set or not
+                let nb = r.range(1, 4 * m2).min(cap).max(1);
+                let sb = if r.chance(1, 2) { s + r.below(n0 + 1) } else { at + r.below(1000) };
+                v.push(format!("B {} {} {} {}", p2, sb, nb, k2));
+                if r.chance(1, 2) {
+                    v.push("bound B".into());
+                }
+                v.push((if r.chance(1, 2) { "mrgx A" } else { "mrgxffi A" }).into());
+                for op in ["cardint A", "cardffi A", "bound A", "fresh A"] {
+                    v.push(op.into());
+                }
+                if r.chance(1, 2) {
+                    v.push("card A".into());
+                    v.push("hist A".into());
+                }
+                if r.chance(1, 2) {
+                    // the other way round: a non-empty receiver of the other shape
+                    v.push((if r.chance(1, 2) { "mrgx B" } else { "mrgxffi B" }).into());
+                    v.push("cardint B".into());
+                    v.push("bound B".into());
+                    v.push("fresh B".into());
+                }
+                // keep using the receiver (the first round of an empty one now and then stays empty)
+                if round > 0 || n0 > 0 || r.chance(1, 2) {
+                    let n = r.range((m / 4).max(1), m).min(cap);
+                    v.push(format!("{} A {} {}", *r.pick(&["add", "addmany", "addffi"]), at, n));
+                    at += n;
+                    v.push("bound A".into());
+                    v.push("fresh A".into());
+                }
+            }
+            // a compatible sketch is accepted
+            let n = r.range((m / 4).max(1), 2 * m).min(cap);
+            v.push(format!("B {} {} {} {}", p, at - r.below((at - s) / 2 + 1), n, ka));
+            v.push((if r.chance(1, 2) { "mrgx A" } else { "mrgxffi A" }).into());
+            for op in ["cardint A", "bound A", "fresh A", "api", "apiffi", "consist", "jbound", "freshj"] {
+                v.push(op.into());
+            }
+            o.push(("merge-mismatch".into(), v));
+        }
+    }
+}
+
 fn gen(a: &Args) {
     let mut r = Rng::new(a.seed);
     let mut o: Cases = vec![];
@@ -418,7 +512,8 @@ fn gen(a: &Args) {
     // ---- estimates BEFORE and AFTER every kind of mutation, on the same objects: each step asks A (and
     // the pair) first, mutates A through one entry point so that its true size grows by a factor of
     // about two (far outside the window of the old value for p >= 8), and asks again
-    const KINDS: [&str; 11] = ["add", "mrg", "addmany", "upd api", "mrgffi", "addffi", "upd ffi", "addseq api", "reload", "addseq ffi", "mrg B"];
+    const KINDS: [&str; 13] =
+        ["add", "mrg", "addmany", "upd api", "mrgffi", "addffi", "mrgbad", "upd ffi", "addseq api", "reload", "addseq ffi", "mrg B", "mrgbadffi"];
     let reps = if thorough { 8 } else { 4 };
     for p in 4..=18u32 {
         let m = 1u64 << p;
@@ -431,7 +526,7 @@ fn gen(a: &Args) {
             let mut at = s + n0;
             let mut have = n0;
             let nsteps = if thorough { r.range(5, 11) } else { 6 };
-            let first = r.below(11);
+            let first = r.below(13);
             for step in 0..nsteps {
                 // before
                 v.push((if r.chance(1, 2) { "cardint A" } else { "cardffi A" }).into());
@@ -440,7 +535,7 @@ fn gen(a: &Args) {
                 }
                 let n = have.max((m / 4).max(8)).min(cap);
                 let from = if r.chance(1, 4) { at.saturating_sub(r.below(n / 2 + 1)).max(s) } else { at + r.below(50) };
-                let kind = KINDS[((first + step * 4 + rep) % 11) as usize];
+                let kind = KINDS[((first + step * 4 + rep) % 13) as usize];
                 match kind {
                     "add" | "addmany" | "addffi" => v.push(format!("{} A {} {}", kind, from, n)),
                     "upd api" | "upd ffi" => v.push(format!("{} {} {} {}", kind.replace("upd", "upd A"), if r.chance(1, 3) { n + r.below(3) } else { 0 }, from, n)),
@@ -460,13 +555,32 @@ fn gen(a: &Args) {
                         v.push("bound B".into());
                     }
                     "reload" => v.push(format!("reload A {}", *r.pick(&["file", "gz", "buf"]))),
+                    "mrgbad" | "mrgbadffi" => {
+                        // a sketch of another precision and / or another k: the merge is refused and A is
+                        // what it was (asked at once); then the other way round, then a compatible B again
+                        // for the overlap queries below
+                        let (p2, k2) = other_shape(&mut r, p, 21);
+                        let nb = r.range(1, 4 << p2).min(cap);
+                        v.push(format!("B {} {} {} {}", p2, from, nb, k2));
+                        if r.chance(1, 2) {
+                            v.push((if r.chance(1, 2) { "cardint B" } else { "cardffi B" }).into());
+                        }
+                        v.push((if kind == "mrgbad" { "mrgx A" } else { "mrgxffi A" }).into());
+                        v.push((if r.chance(1, 2) { "cardint A" } else { "cardffi A" }).into());
+                        v.push("fresh A".into());
+                        v.push("bound A".into());
+                        v.push((if kind == "mrgbad" { "mrgxffi B" } else { "mrgx B" }).into());
+                        v.push("bound B".into());
+                        v.push("fresh B".into());
+                        v.push(format!("B {} {} {}", p, from, n));
+                    }
                     _ => {
                         let len = n.min(if thorough { 6000 } else { 1500 }) + 20;
                         let dna: String = (0..len).map(|_| *r.pick(b"ACGT") as char).collect();
                         v.push(format!("{} {}", kind.replace("addseq", "addseq A"), dna));
                     }
                 }
-                if !matches!(kind, "mrg B" | "reload") && !kind.starts_with("addseq") {
+                if !matches!(kind, "mrg B" | "reload" | "mrgbad" | "mrgbadffi") && !kind.starts_with("addseq") {
                     at = at.max(from + n);
                     have = at - s;
                 }
@@ -490,6 +604,8 @@ fn gen(a: &Args) {
     // ---- small and structured hashes: 0, 1, 2^k - 1, 2^k, 2^k + 1 for every k, values below 2^(p-1) and
     // 2^p (upper q bits all zero: the rank saturates at q + 1), all-ones - alone and alongside random streams
     structured_cases(&mut o, &mut r, thorough);
+    // ---- merges that have to be refused (other precision / other k), into empty and non-empty receivers
+    mismatch_cases(&mut o, &mut r, thorough);
     for i in (1..o.len()).rev() {
         let j = r.below(i as u64 + 1) as usize;
         o.swap(i, j);
@@ -674,7 +790,8 @@ fn step(st: &mut St, ws: &[&str]) -> String {
             let p: usize = ws[1].parse().unwrap();
             let start: u64 = ws[2].parse().unwrap();
             let n: u64 = ws[3].parse().unwrap();
-            let mut h = HyperLogLog::new(p, 21).unwrap();
+            let k: usize = ws.get(4).map(|w| w.parse().unwrap()).unwrap_or(21);
+            let mut h = HyperLogLog::new(p, k).unwrap();
             for i in 0..n {
                 h.add_hash(splitmix64(start + i));
             }
@@ -816,6 +933,36 @@ fn step(st: &mut St, ws: &[&str]) -> String {
                     d.ranges.extend_from_slice(&s.ranges);
                     d.extra = merge_sorted(&d.extra, &s.extra);
                     format!("nz={}", nz(&d.h))
+                }
+                _ => "none".into(),
+            }
+        }
+        "mrgx" | "mrgxffi" => {
+            let (dst, src) = if ws[1] == "A" { (st.a.as_mut(), st.b.as_ref()) } else { (st.b.as_mut(), st.a.as_ref()) };
+            match (dst, src) {
+                (Some(d), Some(s)) => {
+                    let res = if ws[0] == "mrgxffi" {
+                        LAST_ERROR.with(|e| e.borrow_mut().take());
+                        unsafe { hll_merge(&mut d.h as *mut HyperLogLog as *mut SourmashHyperLogLog, SourmashHyperLogLog::from_ref(&s.h)) };
+                        match LAST_ERROR.with(|e| e.borrow_mut().take()) {
+                            Some(e) => Err(e),
+                            None => Ok(()),
+                        }
+                    } else {
+                        d.h.merge(&s.h)
+                    };
+                    match res {
+                        Ok(()) => {
+                            // accepted: the receiver now holds both sets
+                            d.ranges.extend_from_slice(&s.ranges);
+                            d.extra = merge_sorted(&d.extra, &s.extra);
+                            format!("ok nz={}", nz(&d.h))
+                        }
+                        Err(e) => {
+                            let s = format!("{:?}", e);
+                            format!("err {}", s.chars().take_while(|c| c.is_alphanumeric()).collect::<String>())
+                        }
+                    }
                 }
                 _ => "none".into(),
             }
